@@ -37,6 +37,22 @@ where
     pub(crate) fn verif_cache_get(&self, k: &K) -> Option<&C> {
         self.cache.get(k)
     }
+    /// Every live row planted in the cache, in insertion order (used by the stand-in for
+    /// `get_range` in the get_logs filter obligations, whose subject is not the scan).
+    pub(crate) fn verif_cached_rows(&self) -> Vec<(K, V)> {
+        let mut out = Vec::new();
+        let mut i = 0;
+        while i < crate::verif_models::HCAP {
+            if i < self.cache.len {
+                let kv = self.cache.items[i].as_ref().unwrap();
+                if let Some(v) = kv.1.latest() {
+                    out.push((kv.0.clone(), v));
+                }
+            }
+            i += 1;
+        }
+        out
+    }
     pub(crate) fn verif_latest_store(&self) -> &DB {
         &self.db
     }
